@@ -4,5 +4,8 @@
 (* verified against the configured CA).  Client kinds: "valid", "nocert",    *)
 (* "wrongca" / "earlierca" (certificate from another CA / from a CA the same *)
 (* package created earlier), "plaintext", "garbage", "silent"                *)
-HandshakeOKFor(mode, kind) == kind = "valid" \/ (mode = "server" /\ kind \in {"nocert", "wrongca", "earlierca"})
+\* "anycert": a client certificate is required but not verified (tls.RequireAnyClientCert)
+HandshakeOKFor(mode, kind) == \/ kind = "valid"
+                              \/ (mode = "server" /\ kind \in {"nocert", "wrongca", "earlierca"})
+                              \/ (mode = "anycert" /\ kind \in {"wrongca", "earlierca"})
 ==============================================================================
